@@ -21,7 +21,7 @@ RULE = ("two focus alphabets (short-form disambiguation: 10 kinds; id./placehold
 ASSUMPTIONS = ["independent key of a case citation = (volume, page, guessed-edition-or-written reporter); "
                "law/journal = all groups + candidate editions (anchors: ResourceCitation.__hash__)",
                "exhaustive for the stated alphabet and bound only"]
-FLOORS = {"quick": {"sequences": R.n_sequences(3), "focus_sequences": R.n_focus_sequences(3), "extracted_lists": 500, "full_pairs_compared": 5000, "member_pair_lists": 500, "hostile_member_pairs": 100, "dated_pairs": 100},
+FLOORS = {"quick": {"sequences": R.n_sequences(3), "focus_sequences": R.n_focus_sequences(3), "extracted_lists": 500, "full_pairs_compared": 5000, "member_pair_lists": 2500, "hostile_member_pairs": 100, "dated_pairs": 100},
           "thorough": {"sequences": R.n_sequences(5), "focus_sequences": R.n_focus_sequences(5), "extracted_lists": 30000, "full_pairs_compared": 2000000}}
 
 
@@ -75,6 +75,9 @@ def run_shard(spec, rec):
     for combo in R.long_lists(protos, random.Random(spec["seed"] + 31), 2):
         check_seq(R.instantiate(protos, combo), combo, rec, resolve_citations)
         rec.count("long_lists")
+    for combo in R.collision_sequences(random.Random(spec["seed"] + 57), 400):
+        check_seq(R.instantiate(protos, combo), combo, rec, resolve_citations)
+        rec.count("collision_sequences")
     # random longer sequences over the extended alphabet
     rng = random.Random(spec["seed"])
     allk = list(protos)
@@ -91,8 +94,10 @@ def run_shard(spec, rec):
     from vmon.rxgen import sample
     fullx = [e for e in gen.DB.cit_extractors if not e.extra["short"] and e.regex.startswith(gen.PRE)
              and any(x.reporter.source == "reporters" for x in list(e.extra["exact_editions"]) + list(e.extra["variation_editions"]))]
-    for _ in range(spec["ndoc"] // 2):
-        e = rng.choice(fullx)
+    # every such pattern once per run (sharded), then random ones
+    sweep = [e for n, e in enumerate(fullx) if n % spec["nshards"] == spec["i"]]
+    for it in range(len(sweep) + spec["ndoc"] // 2):
+        e = sweep[it] if it < len(sweep) else rng.choice(fullx)
         body = e.regex[len(gen.PRE):-len(gen.POST)]
         rx = _re.compile(body, e.flags)
         cores = []
